@@ -591,6 +591,10 @@ func loadPart(e *hx.Env, r *hx.Report, rb *raceBin, dur time.Duration, seed int6
 				Replay: e.WriteReplay("C19", "load", "wedged-"+sanitize(w), strings.Split(tail(stderr, 6000), "\n"), replayOps)})
 		}
 		for _, p := range sum.Panics {
+			if strings.Contains(p, "channel full") && (strings.Contains(p, "RaceFreeFakeWatcher") || strings.Contains(p, "client-go/testing.(*tracker)")) {
+				r.Hit("load:inconclusive:fake-watcher-channel-full")
+				continue
+			}
 			first := strings.SplitN(p, "\n", 2)[0]
 			epn := strings.SplitN(first, ":", 2)[0]
 			r.Violations = append(r.Violations, hx.Violation{Signature: "panic:" + epn + ":" + firstProductFrame(p),
